@@ -26,7 +26,7 @@ import (
 )
 
 type op struct {
-	K       string // AF DM DU IC EX XM AC LC BG CS
+	K       string // AF DM DU IC EX XM AC LC BG CS AS
 	Data    []byte
 	HasOpts bool
 	Dur     int
@@ -63,6 +63,8 @@ func (o *op) line() string {
 		return fmt.Sprintf("BG %d", o.ID)
 	case "CS":
 		return fmt.Sprintf("CS %d %d", o.W, o.H)
+	case "AS":
+		return "AS"
 	}
 	panic("op kind")
 }
@@ -94,6 +96,9 @@ func (o *op) apply(m *mux.Muxer) bool {
 		m.SetBackgroundColor(o.ID)
 	case "CS":
 		m.SetCanvasSize(o.W, o.H)
+	case "AS": // Assemble in the middle of the history; the bytes are discarded, the result is observed
+		var buf bytes.Buffer
+		return m.Assemble(&buf) != nil
 	}
 	return false
 }
@@ -752,8 +757,27 @@ func main() {
 			default:
 				ops, kind = g.wild(), "wild"
 			}
+			// Assemble may be called anywhere in a history (it must not change the muxer)
+			if g.rng.Intn(100) < 35 {
+				for k := g.rng.Range(1, 2); k > 0; k-- {
+					at := g.rng.Intn(len(ops) + 1)
+					ops = append(ops[:at:at], append([]op{{K: "AS"}}, ops[at:]...)...)
+				}
+				kind += "+assemble"
+			}
 			evalCase(c, ops, kind)
 		}
+		// Assemble, then a frame that extends the canvas, then Assemble again
+		for i := 0; i < 60; i++ {
+			a, b := g.item(), g.item()
+			ops := []op{{K: "AF", Data: a.Data, Item: a, HasOpts: true, Dur: 10}, {K: "AS"},
+				{K: "AF", Data: b.Data, Item: b, HasOpts: true, Dur: 10, OX: 2 * g.rng.Range(0, 40), OY: 2 * g.rng.Range(0, 40)}}
+			if g.rng.Bool() {
+				ops = append(ops, op{K: "AS"}, op{K: "EX", Data: g.blob()})
+			}
+			evalCase(c, ops, "assemble-then-grow")
+		}
+		frameLimit(c, pool)
 	})
 }
 
@@ -788,6 +812,64 @@ func okChecks(file []byte, dline string, dm *mux.Demuxer, sh *shadow, maskCanvas
 		}
 	}
 	return ""
+}
+
+// frameLimit: 9999 / 10000 / 10001 AddFrame calls with a tiny frame.  What AddFrame accepts must
+// assemble and come back from both parsers with that many frames; the frame beyond MaxFrames
+// (10000, the limit of both parsers) must be refused with an error.
+func frameLimit(c *Ctx, pool []muxh.PoolItem) {
+	it := &pool[0]
+	for i := range pool {
+		if len(pool[i].Data) < len(it.Data) && pool[i].Alpha == nil {
+			it = &pool[i]
+		}
+	}
+	for _, n := range []int{9999, 10000, 10001} {
+		c.D.Evaluations++
+		c.Count("gen-frame-limit")
+		replay := map[string]any{"ops": fmt.Sprintf("%d x AF <%d-byte frame %dx%d> o 10 0 0 0 0", n, len(it.Data), it.W, it.H)}
+		func() {
+			defer func() {
+				if r := recover(); r != nil {
+					c.Violate("assemble-panics", fmt.Sprint("frame limit scenario: ", r), replay)
+				}
+			}()
+			m := mux.NewMuxer()
+			accepted := 0
+			for i := 0; i < n; i++ {
+				if m.AddFrame(it.Data, &mux.FrameOptions{Duration: 10}) == nil {
+					accepted++
+				}
+			}
+			want := n
+			if want > 10000 {
+				want = 10000
+			}
+			if accepted != want {
+				c.Violate("frame-limit", fmt.Sprintf("%d AddFrame calls: %d accepted, the limit of both parsers is 10000", n, accepted), replay)
+			}
+			var buf bytes.Buffer
+			if err := m.Assemble(&buf); err != nil {
+				if accepted <= 10000 {
+					c.Violate("frame-limit", fmt.Sprintf("Assemble rejects %d accepted frames: %v", accepted, err), replay)
+				}
+				return
+			}
+			d, err := mux.NewDemuxer(buf.Bytes())
+			if err != nil {
+				c.Violate("frame-limit", fmt.Sprintf("muxer assembled %d frames, the demuxer rejects the file: %v", accepted, err), replay)
+				return
+			}
+			if d.NumFrames() != accepted {
+				c.Violate("frame-limit", fmt.Sprintf("%d frames put in, %d demuxed", accepted, d.NumFrames()), replay)
+			}
+			ft, err := webp.GetFeatures(bytes.NewReader(buf.Bytes()))
+			if err != nil || ft.FrameCount != accepted {
+				c.Violate("frame-limit", fmt.Sprintf("muxer assembled %d frames, GetFeatures: %v %+v", accepted, err, ft), replay)
+			}
+			c.Nontrivial(fmt.Sprintf("frame-limit-%d", n))
+		}()
+	}
 }
 
 // metaTooLarge: SetEXIF with maxMetadataSize+1 bytes.  Either Assemble rejects it with an
@@ -827,6 +909,23 @@ func evalCase(c *Ctx, ops []op, kind string) {
 	replay := map[string]any{"ops": ol, "class": cls}
 
 	outs, st, file := runOps(ops)
+	// Assemble calls inside the history must not influence the final result: a fresh Muxer fed the
+	// other calls assembles the same bytes
+	hasAS := false
+	var plain []op
+	for i := range ops {
+		if ops[i].K == "AS" {
+			hasAS = true
+		} else {
+			plain = append(plain, ops[i])
+		}
+	}
+	if hasAS {
+		c.Count("with-assemble-calls")
+		if _, st2, file2 := runOps(plain); st2 != st || !bytes.Equal(file, file2) {
+			c.Violate("assemble-changes-state", fmt.Sprintf("final Assemble is %s (%d bytes) after earlier Assemble calls, %s (%d bytes) on a fresh Muxer with the same calls", st, len(file), st2, len(file2)), replay)
+		}
+	}
 	// -- correspondence line 1: bytes + demuxer accessors
 	muxLine := outs + " " + st
 	var dm *mux.Demuxer
